@@ -20,11 +20,11 @@ CONFIG = {
                     'the skipped blanks as a conversion, C14 finding F8d)',
                     'indexing_mode >= 0; indices >= 1 under 1-based mode'],
     'trusted_base': ['modelled by hand, tied by correspondence only: control flow of the parsers (as C11)'],
-    'partial': ['C12_libsvm_statement, C12_libfm_statement, C12_csv_statement: full statements over renderers / styles are '
-                'stated, not proved; proved: C12_pair_partial (ParsePair on a rendered lexeme:lexeme returns exactly the two '
-                'values and stops behind them, for every Conv.Exact conversion) and, from C11, the reduction of a document to '
-                'its lines (C11_block_is_concat_of_lines_libsvm / _libfm). Missing: the induction over the entries of a line '
-                'and over the rows of a table'],
+    'partial': ['C12_libsvm is proved in full (every table / style / mode / index width / local + exact conversion); the one '
+                'restriction of the Style: every rendered line, the last one included, ends with an end-of-line string',
+                'C12_libfm_statement, C12_csv_statement: stated, not proved (libfm needs the ParseTriple analogue of '
+                'pairS_one / pairS_two and of svmFeats_render; csv the cell-loop analogue); both are covered by the '
+                'table-driven oracle and correspondence'],
 }
 
 MANIFEST = {
